@@ -19,7 +19,7 @@ def cases_for(seed, n, tier):
     return gen.future_sign_cases() + grid + rnd
 
 def correspondence(ctx):
-    cases = cases_for(ctx.seed * 17 + 1, 150 if ctx.tier == "quick" else 2000, ctx.tier)
+    cases = cases_for(ctx.seed * 17 + 1, 400 if ctx.tier == "quick" else 2000, ctx.tier)
     H = 2 if ctx.tier == "quick" else 3
     st, dis = rules_check.run_corr(ctx, cases, H)
     st["horizons"] = "0..{}".format(H)
@@ -32,7 +32,7 @@ def correspondence(ctx):
     return st, dis + tdis
 
 def search(ctx, deep):
-    n = (150 if ctx.tier == "quick" else 2500) * (3 if deep else 1)
+    n = (400 if ctx.tier == "quick" else 2500) * (3 if deep else 1)
     cases = cases_for(ctx.seed * 19 + 2, n, ctx.tier)
     hinted = [[tuple(x) for x in d["rules"]] for d in getattr(ctx, "hints", []) if "rules" in d][:40]
     H = 2 if ctx.tier == "quick" else 3
